@@ -194,6 +194,11 @@ func visitInstr(fr *frame, instr ssa.Instruction) continuation {
 		// no-op
 
 	case *ssa.UnOp:
+		if instr.Op == token.MUL && fr.i.env.sched != nil {
+			if p, ok := fr.get(instr.X).(*value); ok {
+				fr.i.noteAccess(p, false, fr, instr.Pos())
+			}
+		}
 		fr.env[instr] = unop(instr, fr.get(instr.X))
 
 	case *ssa.BinOp:
@@ -249,6 +254,9 @@ func visitInstr(fr *frame, instr ssa.Instruction) continuation {
 		fr.get(instr.Chan).(chan value) <- fr.get(instr.X)
 
 	case *ssa.Store:
+		if fr.i.env.sched != nil {
+			fr.i.noteAccess(fr.get(instr.Addr).(*value), true, fr, instr.Pos())
+		}
 		store(mustDeref(instr.Addr.Type()), fr.get(instr.Addr).(*value), fr.get(instr.Val))
 
 	case *ssa.If:
@@ -319,6 +327,9 @@ func visitInstr(fr *frame, instr ssa.Instruction) continuation {
 		fr.env[instr] = makeMap(instr.Type().Underlying().(*types.Map).Key(), reserve)
 
 	case *ssa.Range:
+		if fr.i.env.sched != nil {
+			fr.i.noteMapAccess(fr.get(instr.X), false, fr, instr.Pos())
+		}
 		fr.env[instr] = rangeIter(fr.i, fr.get(instr.X), instr.X.Type())
 
 	case *ssa.Next:
@@ -358,12 +369,18 @@ func visitInstr(fr *frame, instr ssa.Instruction) continuation {
 		}
 
 	case *ssa.Lookup:
+		if fr.i.env.sched != nil {
+			fr.i.noteMapAccess(fr.get(instr.X), false, fr, instr.Pos())
+		}
 		fr.env[instr] = lookup(fr.i, instr, fr.get(instr.X), fr.get(instr.Index))
 
 	case *ssa.MapUpdate:
 		m := fr.get(instr.Map)
 		key := fr.get(instr.Key)
 		v := fr.get(instr.Value)
+		if fr.i.env.sched != nil {
+			fr.i.noteMapAccess(m, true, fr, instr.Pos())
+		}
 		switch m := m.(type) {
 		case *omap:
 			m.insert(fr.i, key, v)
